@@ -6,7 +6,11 @@ dst = "/verif/seeded/%s_%s" % (pid, k)
 os.makedirs(dst, exist_ok=True)
 for n in os.listdir(sd + "/out"):
     if n != "meta.json":
-        shutil.copy(os.path.join(sd, "out", n), dst)
+        src = os.path.join(sd, "out", n)
+        if os.path.isdir(src):
+            shutil.copytree(src, os.path.join(dst, n), dirs_exist_ok=True)
+        else:
+            shutil.copy(src, dst)
 m = json.load(open(sd + "/out/meta.json"))
 m.update({"breaks_property": pid, "origin": "independent sub-agent given only the property text and a scratch worktree",
           "confirmed_by_integrator": {"script": "tools/confirm_seed.sh %s %s" % (sd, pid),
